@@ -4,7 +4,7 @@ from props import solverstream as ss, tracecheck as tc, enctie, antie, solvertie
 
 THEOREMS = ["C01_oracle_correct", "C01_closed_model_valid", "C01_final_state_valid", "C01_trace_sound",
             "C01_encoder_complete", "C01_encoder_model_valid", "C01_encoder_final_closed",
-            "C01_watch_created_ok", "C01_unit_is_asserted", "C01_late_lock_is_handled", "C01_decide_complete", "C01_complete_units_hold", "C01_solver_model_complete", "C01_solver_model_loses_no_clause", "C01_solver_model_born_empty", "C01_solver_model_no_clause_lost", "C01_solver_model_decided"]
+            "C01_watch_created_ok", "C01_unit_is_asserted", "C01_late_lock_is_handled", "C01_decide_complete", "C01_complete_units_hold", "C01_solver_model_complete", "C01_solver_model_loses_no_clause", "C01_solver_model_born_empty", "C01_solver_model_no_clause_lost", "C01_solver_model_decided", "C01_solver_model_no_clause_falsified"]
 CHECKER = ("coqc Props/C01.v + Print Assumptions; harness solve_cases (debug+release, sync+yield): (a) hook logs -> extracted "
            "check_sat_log_lenient (trace inclusion, theorem C01_trace_sound), (b) extracted o_valid on every returned solution, "
            "(c) extracted encoder model (enc_solve) vs the dumped clause database of every synchronous run: clause-for-clause "
